@@ -1,0 +1,47 @@
+//go:build verif
+
+// Verification export (build tag "verif"): the eviction bookkeeping per database.
+
+package sugardb
+
+import "github.com/echovault/sugardb/internal/eviction"
+
+// VerifCaches is a copy of the LFU / LRU heap arrays and membership maps of every database.
+type VerifCaches struct {
+	LFU     map[int][]eviction.VerifEntryLFU
+	LFUKeys map[int][]string
+	LRU     map[int][]eviction.VerifEntryLRU
+	LRUKeys map[int][]string
+}
+
+// VerifEvictSnapshot copies the eviction caches under the store lock. Call it only
+// while no cache update is in flight.
+func (server *SugarDB) VerifEvictSnapshot() VerifCaches {
+	server.storeLock.RLock()
+	defer server.storeLock.RUnlock()
+	out := VerifCaches{
+		LFU:     map[int][]eviction.VerifEntryLFU{},
+		LFUKeys: map[int][]string{},
+		LRU:     map[int][]eviction.VerifEntryLRU{},
+		LRUKeys: map[int][]string{},
+	}
+	for db, c := range server.lfuCache.cache {
+		if c == nil {
+			continue
+		}
+		c.Mutex.Lock()
+		out.LFU[db] = c.VerifEntries()
+		out.LFUKeys[db] = c.VerifKeys()
+		c.Mutex.Unlock()
+	}
+	for db, c := range server.lruCache.cache {
+		if c == nil {
+			continue
+		}
+		c.Mutex.Lock()
+		out.LRU[db] = c.VerifEntries()
+		out.LRUKeys[db] = c.VerifKeys()
+		c.Mutex.Unlock()
+	}
+	return out
+}
